@@ -225,5 +225,22 @@ func registry() map[string]PropSpec {
 		},
 		Assumptions: []string{"a data race requires a write; concurrent use of distinct objects shares only package-level state"},
 	})
+	add(PropSpec{
+		ID: "C16",
+		Harnesses: []HSpec{
+			{Pkg: "ordered", Name: "c16_scalars", Quick: map[string]int{"free": 1}, Thorough: map[string]int{"free": 2}, Unwind: [2]int{48, 64}, Budget: [2]int{120, 1500},
+				What: "Unmarshal/decodeInto into a struct with plain, aliased, omitempty, `-`, untagged and unexported fields and an inline map: every key (each named key present / null / absent, plus free keys of 0-2 symbolic bytes) goes to exactly one destination"},
+			{Pkg: "ordered", Name: "c16_containers", Quick: map[string]int{}, Unwind: [2]int{48, 64},
+				What: "slice, map, nested struct, pointer-to-struct (with alias) fields and an ordered inline *MapSA: append/fill/zero semantics, nested alias precedence, leftovers in document order"},
+			{Pkg: "ordered", Name: "c16_inline_struct", Quick: map[string]int{}, Unwind: [2]int{48, 64},
+				What: "inline pointer-to-struct (the CommandStep pattern): leftovers of the outer level are partitioned again by the inline struct"},
+		},
+		Outside: []string{
+			"`equals what yaml.Node.Decode produces`: needs yaml.v3's reflective decoder, which a hand-written SSA executor cannot run - not claimed",
+			"two fields sharing one alias (no type of the repository does that; the statement does not define it)",
+			"ill-typed documents (error-or-fallback behaviour is asserted under C13/C15)",
+		},
+		Assumptions: []string{"reflect.* modelled over the engine's typed heap; types, tags and field lists come from go/types of the current source"},
+	})
 	return r
 }
